@@ -931,7 +931,7 @@ func (w *walker) instr(s *wstate, b *ssa.BasicBlock, in ssa.Instruction) {
 					s.env[in] = v
 					return
 				}
-				if a.Parent() != in.Parent() {
+				if a.Parent() != in.Parent() && cellStableForClosures(a) {
 					// ... or of the function that created the closure under analysis: everything ever stored there
 					s.env[in] = w.refine(s, AV{T: w.tb.cellValue(a)})
 					return
